@@ -33,6 +33,7 @@ class Check:
         self.clauses_decided = []
         self.clauses_not_decided = []
         self.errors = []
+        self.liveness = None
 
     # ---- anchors
     def fn(self, key):
@@ -188,6 +189,7 @@ class Check:
                 'positive_controls': [{'name': n, 'fired': f} for n, f in self.controls],
                 'samples': self.samples[:24] or [{'note': 'no instance sampled'}],
                 'notes': self.notes,
+                'liveness_corpus': self.liveness if self.liveness is not None else 'thorough tier only',
                 'unsupported_nodes_in_crate': self.facts.get('unsupported', 0),
                 'fact_base': {'fns': len(self.fns), 'adts': len(self.facts.get('adts', {})), 'tree_hash': self.facts.get('_hash'),
                               'cached': self.facts.get('_cached'), 'hir_nodes': self.facts.get('nodes')},
